@@ -79,9 +79,33 @@ class Suite:
         # cache serves near-twin requests (background, level order / another level, halo, tower, grid shape, precision,
         # one profile component), then the request is made twice and the answer served from the cache is what the case
         # judges.  The case parameter "_cache" is consumed here, never seen by the kind.
+        self.repeat_every = 5 if prop in self.REPEAT_TARGETS else 0
+        if self.repeat_every:
+            self.bound += "; every %dth case run twice in one process with the results of %s handed to the caller as copies and the returned objects overwritten" % (
+                self.repeat_every, ", ".join(sorted({n for _, n in self.REPEAT_TARGETS[prop]})))
         self.cache_every = 7 if prop in self.SOLVER_PROPS else 0
         if self.cache_every:
             self.bound += "; every %dth case repeated with a GreensFunctionCache attached to its footprint solves after near-twin requests through the same cache" % self.cache_every
+
+    # "repeat" variant: every `repeat_every`-th case is run twice in this process while the package functions the suite
+    # calls (REPEAT_TARGETS[prop]) hand their results to the caller as copies and the objects they actually returned
+    # are overwritten -- a caller that edits what it got in place.  On a tree where no function keeps what it returned,
+    # nothing changes; a result kept in a memo and handed out again shows in the second run.  The case parameter
+    # "_repeat" is consumed here.
+    REPEAT_TARGETS = {
+        "C09": [("bldfm.pbl_model", "vertical_profiles"), ("bldfm.pbl_model", "psi"), ("bldfm.pbl_model", "phi")],
+        "C13": [("bldfm.interface", "run_bldfm_single"), ("bldfm.pbl_model", "vertical_profiles"), ("bldfm.utils", "compute_wind_fields"),
+                ("bldfm.utils", "ideal_source")],
+        "C17": [("bldfm.plotting._geo", "xy_to_latlon"), ("bldfm.config_parser", "latlon_to_xy")],
+        "C19": [("bldfm.ffm_kormann_meixner", "estimateFootprint"), ("bldfm.ffm_kormann_meixner", "estimateZ0")],
+        "C20": [("bldfm.utils", "get_source_area"), ("bldfm.plotting.footprint", "extract_percentile_contour"),
+                ("bldfm.plotting", "extract_percentile_contour"), ("bldfm.utils", "source_area_contribution"),
+                ("bldfm.utils", "source_area_circular"), ("bldfm.utils", "source_area_upwind"), ("bldfm.utils", "source_area_crosswind"),
+                ("bldfm.utils", "source_area_sector")],
+    }
+    for _p in SOLVER_PROPS:
+        REPEAT_TARGETS[_p] = [("bldfm.solver", "steady_state_transport_solver")]
+    del _p
 
     def kind(self, name):
         def deco(fn):
@@ -93,8 +117,15 @@ class Suite:
         params = dict(params)
         threads = params.pop("_threads", None)
         cached = params.pop("_cache", None)
+        repeat = params.pop("_repeat", None)
         undo = None
+        undo_r = None
         try:
+            if repeat:
+                undo_r = _scribble_results(self.REPEAT_TARGETS.get(self.prop, []))
+                first = self.kinds[kind](**params)
+                if isinstance(first, Verdict) and not first.ok:
+                    return first, None
             if threads:
                 import bldfm.config as _cfg
                 _cfg.NUM_THREADS = int(threads)
@@ -107,6 +138,9 @@ class Suite:
                 v.detail = "[NUM_THREADS=%d] %s" % (threads, v.detail)
             if cached and not v.ok:
                 v.detail = "[footprint solves served through a cache after near-twin requests] %s" % v.detail
+            if repeat and not v.ok:
+                v.detail = "[second run of the case in one process; the caller of the first run edited the arrays it was handed in place] %s" % v.detail
+                v.key = "repeat-" + (v.key or kind)
             return v, None
         except CacheChangesResult as e:
             return Verdict(False, str(e), key="result-through-a-cache-differs"), None
@@ -118,6 +152,8 @@ class Suite:
                 _cfg.NUM_THREADS = 1
             if undo:
                 undo()
+            if undo_r:
+                undo_r()
 
     def main(self, generate):
         ap = argparse.ArgumentParser()
@@ -161,6 +197,8 @@ class Suite:
                     nmulti[0] += 1
                 # every 7th case, and (whatever its position) every 2nd case that requests several output levels: the
                 # level-order twins of the history need a request whose order matters
+                if self.repeat_every and k % self.repeat_every == 0 and not any(x in params for x in ("_repeat", "_threads", "_cache")):
+                    yield kind, dict(params, _repeat=1)
                 if self.cache_every and (k % self.cache_every == 0 or (multi and nmulti[0] % 2 == 1)) and "_cache" not in params and "_threads" not in params:
                     yield kind, dict(params, _cache=k)
         for kind, params in with_threads():
@@ -204,6 +242,74 @@ class Suite:
         else:
             print(txt)
         sys.exit(0)
+
+
+# ----------------------------------------------------------------------------- repeat variant
+def _scribble_results(targets):
+    import importlib
+    import numpy as np
+
+    def arrays_in(x, out, depth=0):
+        if isinstance(x, np.ndarray):
+            out.append(x)
+        elif isinstance(x, (tuple, list)) and depth < 4:
+            for y in x:
+                arrays_in(y, out, depth + 1)
+        elif isinstance(x, dict) and depth < 4:
+            for y in x.values():
+                arrays_in(y, out, depth + 1)
+        return out
+
+    def copied(x, depth=0):
+        if isinstance(x, np.ndarray):
+            return np.array(x, copy=True, subok=True)
+        if isinstance(x, tuple) and depth < 4 and type(x) is tuple:
+            return tuple(copied(y, depth + 1) for y in x)
+        if isinstance(x, list) and depth < 4 and type(x) is list:
+            return [copied(y, depth + 1) for y in x]
+        if isinstance(x, dict) and depth < 4 and type(x) is dict:
+            return {k: copied(y, depth + 1) for k, y in x.items()}
+        return x
+
+    saved = []
+    for modname, name in targets:
+        try:
+            mod = importlib.import_module(modname)
+            real = getattr(mod, name)
+        except Exception:
+            continue
+        if getattr(real, "_pyvc_scribbling", False):
+            continue
+
+        def make(real):
+            def wrapper(*a, **k):
+                res = real(*a, **k)
+                given = arrays_in((a, k), [])
+                out = copied(res)
+                for arr in arrays_in(res, []):
+                    # never what the caller handed in (or a view of it): that is the caller's own data
+                    if arr.flags.writeable and arr.dtype.kind in "fciu" and not any(np.may_share_memory(arr, g) for g in given):
+                        try:
+                            if arr.dtype.kind in "iu":
+                                arr[...] = arr // 2 + 1
+                            else:
+                                arr *= 0.5
+                                arr += 0.125
+                        except Exception:
+                            pass
+                return out
+            wrapper._pyvc_scribbling = True
+            wrapper.__wrapped__ = real
+            wrapper.__name__ = getattr(real, "__name__", "f")
+            wrapper.__doc__ = getattr(real, "__doc__", None)
+            return wrapper
+        setattr(mod, name, make(real))
+        saved.append((mod, name, real))
+
+    def undo():
+        for mod, name, real in saved:
+            setattr(mod, name, real)
+    return undo
 
 
 # ----------------------------------------------------------------------------- cache-history variant
